@@ -1,4 +1,79 @@
+import PgsVerif.Props.C01
 import PgsVerif.Model.AstSem2
+/-!
+# C02 — lookup is the inverse of the qualified name, for every entity of every valid request
+
+The lookup clauses of the property, on the observation the correspondence check compares with the
+implementation (`c02Model`): the build does not fail, every declared entity is looked up to itself
+under its key (files: path; others: fully-qualified name), a probe name no descriptor declares is
+not found, a probe name that is declared returns the declaration that bears it.
+(The remaining clauses of C02 — container links, inherited attributes — are fixed by `entRec`, which
+reads them off containment directly; they are tied to the code by the correspondence check.)
+-/
 namespace Pgs.AST
-theorem placeholder_C02 : True := trivial
+
+theorem keysNodup_seen {w : World} (hv : Valid w) {g : Graph} (hs : g.seen = (declared w).reverse) :
+    (g.seen.map (·.key)).Nodup := by
+  rw [hs, List.map_reverse]; exact nodup_reverse hv.keysNodup
+
+/-- the model observation on a valid request, spelled out -/
+theorem c02Model_valid (w : World) (hv : Valid w) (ps : List String) :
+    ∃ g, hydrate w = .ok g ∧ g.seen = (declared w).reverse ∧
+      c02Model w ps = ⟨false, ((declared w).map (entRec w g.seen)).mergeSort entLe,
+        ps.map fun n => (n, match lookup g.seen n with | some x => x.ref | none => noRef)⟩ := by
+  obtain ⟨g, hg, hs⟩ := C01_no_failure w hv
+  exact ⟨g, hg, hs, by simp only [c02Model, hg]; rfl⟩
+
+/-- **C02 (never fails)** -/
+theorem C02_not_failed (w : World) (hv : Valid w) (ps : List String) : (c02Model w ps).failed = false := by
+  obtain ⟨g, _, _, h⟩ := c02Model_valid w hv ps
+  rw [h]
+
+/-- **C02 (lookup of a declared entity returns that entity)**: every record of the observation is the
+    record of a declared entity, and its `lookup` column is its own reference. -/
+theorem C02_lookup_self (w : World) (hv : Valid w) (ps : List String) :
+    ∀ e ∈ (c02Model w ps).ents, ∃ d ∈ declared w, e.ref = d.ref ∧ e.lookup = d.ref := by
+  obtain ⟨g, hg, hs, h⟩ := c02Model_valid w hv ps
+  rw [h]
+  intro e he
+  simp only [List.mem_mergeSort, List.mem_map] at he
+  obtain ⟨d, hd, rfl⟩ := he
+  refine ⟨d, hd, rfl, ?_⟩
+  have := (C02_lookup w hv g hg).1 d hd
+  simp [entRec, this]
+
+/-- every declared entity has a record (none is lost) -/
+theorem C02_all_present (w : World) (hv : Valid w) (ps : List String) :
+    ∀ d ∈ declared w, ∃ e ∈ (c02Model w ps).ents, e.ref = d.ref ∧ e.lookup = d.ref ∧ e.fqn = fqnOf w d := by
+  obtain ⟨g, hg, hs, h⟩ := c02Model_valid w hv ps
+  rw [h]
+  intro d hd
+  refine ⟨entRec w g.seen d, ?_, rfl, ?_, rfl⟩
+  · simp only [List.mem_mergeSort, List.mem_map]; exact ⟨d, hd, rfl⟩
+  · have := (C02_lookup w hv g hg).1 d hd
+    simp [entRec, this]
+
+/-- **C02 (undeclared names are not found)** -/
+theorem C02_probe_absent (w : World) (hv : Valid w) (ps : List String) :
+    ∀ p ∈ (c02Model w ps).probes, p.1 ∉ (declared w).map (·.key) → p.2 = noRef := by
+  obtain ⟨g, hg, hs, h⟩ := c02Model_valid w hv ps
+  rw [h]
+  intro p hp hk
+  simp only [List.mem_map] at hp
+  obtain ⟨n, _, rfl⟩ := hp
+  have := (C02_lookup w hv g hg).2 n hk
+  simp [this]
+
+/-- **C02 (declared names are found, and the entity returned is the one bearing the name)** -/
+theorem C02_probe_present (w : World) (hv : Valid w) (ps : List String) :
+    ∀ p ∈ (c02Model w ps).probes, ∀ d ∈ declared w, d.key = p.1 → p.2 = d.ref := by
+  obtain ⟨g, hg, hs, h⟩ := c02Model_valid w hv ps
+  rw [h]
+  intro p hp d hd hk
+  simp only [List.mem_map] at hp
+  obtain ⟨n, _, rfl⟩ := hp
+  have := (C02_lookup w hv g hg).1 d hd
+  simp only at hk
+  simp [← hk, this]
+
 end Pgs.AST
